@@ -44,6 +44,9 @@ def run(ctx):
         ctx.guard("assertions" + tag, c01.assertions, ctx, crate, crs, tag)
         import c15
         ctx.guard("soft-solvables-registered" + tag, c15.soft_registered, ctx, crate, crs, tag)
+        # "never turn a solvable problem into an error": a soft requirement may name a solvable whose package no requirement
+        # ever asked for, so the id-indexed tables are not sized for it - every index into them is guarded (rule of C04)
+        ctx.guard("guarded-index" + tag, c04.guarded_index, ctx, crate, crs, tag)
 
 
 def starting_level_local(b):
